@@ -3,6 +3,16 @@
   gap w d := custody − staked − pending (AllianceProofs/Custody.lean). Proved so far, for every state with a sorted
   (= uniquely keyed) unbonding queue — an invariant of every history (`queue_sorted_inv`):
   the three places where coins of an alliance denom leave custody or a pending balance changes keep the gap EXACTLY.
+
+  Assembled (AllianceProofs/GapMono … CustodyHistory): the accounting judgment `GapT` gives every keeper function an
+  exact delta (+amount on a deposit, −amount on queueing, 0 for claims: what distribution pays arrives in custody and
+  is forwarded whole), `step_keeps_gap` covers every operation of the state machine, `take_rate_keeps_gap` the
+  take-rate deduction (fee collector receives per denom exactly what comes off the staked totals), and
+  `custody_never_short` is the statement over ALL histories (`Reach`): operations with arbitrary non-negative
+  distribution responses, failed transactions, and arbitrary environment steps that do not take coins out of custody.
+  Scope (`OpScope`, stated, not proved away): the delegator of a deposit/withdrawal is not the module account itself;
+  an asset is deleted only while its recorded total is ≥ 0; a FAILING slash hook or end-of-block ends the history
+  (on chain it halts the block) — partial writes of those are outside the theorem.
 -/
 import AllianceProofs
 namespace Alliance
@@ -29,6 +39,74 @@ theorem payout_keeps_gap (w w' : World) (h : completeUnbondings w = (.ok (), w')
 theorem unbonding_slash_keeps_gap (v : ValId) (f : Dec) (w w' : World) (h : slashUndelegations v f w = (.ok (), w'))
     (hs : QSorted w) (d : Denom) : gap w' d = gap w d :=
   (slashUndelegations_gap v f w w' h hs).1 d
+
+/-- every operation that succeeds from a state in scope leaves the custody gap of every alliance denom at least
+    where it was -/
+theorem step_keeps_gap (d : Denom) (op : Op) (w w' : World) (h : step op w = (.ok (), w')) (hg : Good d w)
+    (hop : OpScope d op w) : gap w d ≤ gap w' d ∧ Good d w' := step_gap d op w w' h hg hop
+
+/-- the take-rate deduction, run on an asset list in step with the store, never lowers the gap -/
+theorem take_rate_keeps_gap (lastClaim : Time) (assets : List Asset) (d : Denom) (w w' : World) (r : List Asset)
+    (h : deductAssetsWithTakeRate lastClaim assets w = (.ok r, w')) (hg : Good d w) (hs : InSync assets w) :
+    gap w d ≤ gap w' d :=
+  ((deductAssetsWithTakeRate_gapH lastClaim assets d).run w w' r h hg hs).1
+
+/-- the end-of-block as a whole (its asset list is read from the store, so it is in step) -/
+theorem end_block_keeps_gap (d : Denom) (w w' : World) (h : endBlocker w = (.ok (), w')) (hg : Good d w) :
+    gap w d ≤ gap w' d := ((endBlocker_gapM d).run w w' () h hg trivial).1
+
+/-- a deposit: custody and the staked total both grow by exactly the amount -/
+theorem delegate_exact (del : Acct) (val : AVal) (d' : Denom) (amt : Int) (d : Denom) (w w' : World)
+    (h : delegate del val d' amt w = (.ok (), w')) (hg : Good d w) (hdel : del ≠ accModule) :
+    gap w d ≤ gap w' d ∧ staked w' d = (if d' = d then staked w d + amt else staked w d) := by
+  obtain ⟨g1, _, g3⟩ := (delegate_gapT del val d' amt d (staked w d) hdel).run w w' () h hg rfl
+  exact ⟨by omega, g3⟩
+
+/-- a withdrawal: the staked total falls by exactly the amount, which is queued; custody is untouched -/
+theorem undelegate_exact (del : Acct) (val : AVal) (d' : Denom) (amt : Int) (d : Denom) (w w' : World)
+    (h : undelegate del val d' amt w = (.ok (), w')) (hg : Good d w) (hdel : del ≠ accModule) :
+    gap w d ≤ gap w' d ∧ staked w' d = (if d' = d then staked w d - amt else staked w d) := by
+  obtain ⟨g1, _, g3⟩ := (undelegate_gapT del val d' amt d (staked w d) hdel).run w w' () h hg rfl
+  exact ⟨by omega, g3⟩
+
+/-- C01 over all histories: along every history from a state in scope the custody gap never falls -/
+theorem gap_never_falls (d : Denom) (w w' : World) (hc : Core d w) (hr : Reach d w w') :
+    gap w d ≤ gap w' d ∧ Core d w' := reach_gap d w w' hc hr
+
+/-- C01 as stated: custody ≥ staked total + pending unbondings in every reachable state, when it held at the start -/
+theorem custody_never_short (d : Denom) (w w' : World) (hc : Core d w) (h0 : 0 ≤ gap w d) (hr : Reach d w w') :
+    staked w' d + pending w' d ≤ custody w' d := custody_covers d w w' hc h0 hr
+
+/-! non-vacuity: a concrete state in scope, and a concrete history with a deposit that succeeds -/
+def exAsset : Asset := { denom := 0, weight := one, wmin := 0, wmax := one, takeRate := 0, totalTokens := 0
+                         totalValShares := 0, startTime := 0, changeRate := one, changeIntv := 0, lastChange := 0, isInit := true }
+def exStaking : Staking := { bondDenom := 4, unbondingTime := 100
+                             vals := [(0, { status := 3, jailed := false, tokens := 1000, delShares := 1000 * one, modShares := none })] }
+def exWorld : World := { (default : World) with
+  assets := [(0, exAsset)]
+  bank := [((10, 0), 100)]
+  staking := exStaking }
+def isOk : Except Err Unit → Bool | .ok _ => true | _ => false
+
+theorem exWorld_core : Core 0 exWorld := by
+  refine ⟨List.Pairwise.nil, ?_, by decide, ?_, List.pairwise_singleton _ _⟩
+  · intro p hp; cases hp
+  · intro p hp
+    simp only [exWorld, List.mem_cons, List.not_mem_nil, or_false] at hp
+    subst hp; rfl
+
+theorem exWorld_tape : { exWorld with oracle := [] } = exWorld := rfl
+
+example : Reach 0 exWorld (step (.delegate 10 0 0 5) { exWorld with oracle := [] }).2 ∧ gap exWorld 0 = 0 := by
+  refine ⟨Reach.ok (.delegate 10 0 0 5) [] (Reach.refl _) (fun p hp => by cases hp)
+    (by show (10 : Nat) ≠ accModule; decide) ?_, by decide⟩
+  rw [exWorld_tape]
+  have h : isOk (step (.delegate 10 0 0 5) exWorld).1 = true := by decide
+  rcases hs : step (.delegate 10 0 0 5) exWorld with ⟨r, w2⟩
+  rw [hs] at h
+  cases r with
+  | ok u => rfl
+  | error e => cases h
 
 /-- non-vacuity: a state with one pending entry satisfies the hypotheses -/
 example : QSorted { (default : World) with undelQueue := [((100, 10), [{ del := 10, val := 0, denom := 0, amount := 5 }])] } ∧
